@@ -29,7 +29,7 @@ import re
 
 from facts import AnalysisBroken
 from prog import walk, kids, short
-from rules.common import strip_casts, const_of
+from rules.common import strip_casts, const_of, range_for_consts
 from rules.effects import canon
 
 M64 = (1 << 64) - 1
@@ -252,8 +252,13 @@ class Frame:
                              'colour-specific calls are not issued for both colours alike: WHITE %s, BLACK %s' % (w, b))
 
     # ---- helpers ----------------------------------------------------------------------------------------------------
+    unrolled = {}
+
     def cn(self, n):
-        return canon(self.fn, n, inline=False).replace(' ', '')
+        s = canon(self.fn, n, inline=False).replace(' ', '')
+        for name, v in self.unrolled.items():
+            s = s.replace(name, str(v)) if not name.isidentifier() else re.sub(r'\b%s\b' % re.escape(name), str(v), s)
+        return s
 
     def bad(self, n, rule, msg):
         self.mir.bad(self.fn, n, rule, msg)
@@ -393,6 +398,20 @@ class Frame:
         elif k in ('BreakStmt', 'ContinueStmt', 'NullStmt'):
             if k == 'BreakStmt' and self.elem_loops:
                 self.check_break(n)
+        elif k == 'CXXForRangeStmt' and range_for_consts(n) is not None and range_for_consts(tn) is not None:
+            # a loop over a braced list of constants: the body once per listed value, the variable being that constant
+            var, vals, body = range_for_consts(n)
+            tvar, tvals, tbody = range_for_consts(tn)
+            if vals != tvals or any(x['k'] in ('BreakStmt', 'ContinueStmt', 'ReturnStmt') for x in walk(body)):
+                raise AnalysisBroken('MIRROR: loop over a constant list in %s: lists differ between the colours, or the body leaves the loop' % self.fn.name)
+            vinit = canon(self.fn, kids(var)[0], inline=False).replace(' ', '')
+            for v in vals:
+                self.env[('L', var['id'])] = T('I', v)
+                self.unrolled[var.get('name')] = v
+                self.unrolled[vinit] = v
+                self.run_or_expr(body, tbody)
+            self.unrolled.pop(var.get('name'), None)
+            self.unrolled.pop(vinit, None)
         elif k == 'CXXForRangeStmt' or k == 'DoStmt' or k == 'SwitchStmt':
             raise AnalysisBroken('MIRROR: statement kind %s in %s is outside the rules' % (k, self.fn.name))
         else:
@@ -540,6 +559,8 @@ class Frame:
             return self.binary(n, tn, n.get('op'), ks[0], ks[1], tks[0], tks[1])
         if k == 'CXXOperatorCallExpr':
             op = n.get('op')
+            if op == '()':
+                return self.lambda_call(n, tn)
             if len(ks) == 3:
                 return self.binary(n, tn, op, ks[1], ks[2], tks[1], tks[2])
             if len(ks) == 2:
@@ -607,6 +628,8 @@ class Frame:
             if ex and t is not None and (t.m == 'U' or 'f?' in t.attrs):
                 self.mir.exceptions_used.add((ex[0], r['n']))
                 return T('I' if t.m == 'U' else t.m, None, t.attrs - {'f?'})
+            if t is None and ('L', r['id']) not in self.env:
+                t = self.by_name(r)
             if t is None:
                 if ('L', r['id']) in self.env:
                     raise AnalysisBroken('MIRROR: %s read before assignment at %s' % (r['n'], self.fn.loc(n)))
@@ -614,6 +637,8 @@ class Frame:
             return t
         if r['k'] == 'Parm':
             t = self.env.get(('P', r['id']))
+            if t is None:
+                t = self.by_name(r)
             if t is None:
                 raise AnalysisBroken('MIRROR: parameter %s untyped in %s' % (r['n'], self.fn.name))
             return t
@@ -1317,6 +1342,13 @@ class Frame:
         if name == 'engine::make_piece':
             c, kd = A(0), A(1)
             self.need(args[1], kd, 'I', 'PieceKind', 'the piece kind')
+            if c.m == 'I' and isinstance(c.val, int) and isinstance(kd.val, int):
+                # both named: the piece constant itself
+                ke = {v: k_ for k_, v in self.mir.p.enum('engine::PieceKind').items()}
+                pe = self.mir.p.enum('engine::Piece')
+                nm_ = ('W_' if c.val == 0 else 'B_') + ke.get(kd.val, '?')
+                if nm_ in pe:
+                    return T('I', pe[nm_])
             return T(c.m, None)
         if name == 'engine::get_color' or name == 'engine::get_piece_kind':
             return A(0) if name == 'engine::get_color' else I
@@ -1385,6 +1417,48 @@ class Frame:
         rt, outs = mir.summary(callee, ats)
         self.apply_outs(n, args, targs, outs)
         return rt
+
+    def lambda_call(self, n, tn):
+        """a call of a lambda written in this function: its body is typed in place, parameters bound to the argument types,
+        captured variables being the enclosing function's own"""
+        g = self.mir.p.funcs.get((n.get('callee') or {}).get('fid'))
+        tg = self.mir.p.funcs.get((tn.get('callee') or {}).get('fid'))
+        if g is None or tg is None or g.body is None or tg.body is None or getattr(g, 'enclosing', None) is not self.fn:
+            raise AnalysisBroken('MIRROR: operator () at %s' % self.fn.loc(n))
+        if getattr(self, '_inl', 0) >= 3:
+            raise AnalysisBroken('MIRROR: nested lambda calls at %s' % self.fn.loc(n))
+        ks, tks = kids(n), kids(tn)
+        args, targs = ks[2:], tks[2:]
+        for i, prm in enumerate(g.params):
+            if '&' in (prm.get('t') or '') and 'const' not in (prm.get('t') or ''):
+                raise AnalysisBroken('MIRROR: lambda with a reference parameter at %s' % self.fn.loc(n))
+            self.env[('P', prm['id'])] = self.ty(args[i], targs[i]) if i < len(args) else I
+        saved_r, saved_l = self.rets, self.elem_loops
+        self.rets, self.elem_loops = [], []
+        self._inl = getattr(self, '_inl', 0) + 1
+        try:
+            self.run(g.body, tg.body)
+            rets = self.rets
+        finally:
+            self.rets, self.elem_loops = saved_r, saved_l
+            self._inl -= 1
+        rt = None
+        for r in rets:
+            rt = r if rt is None else self.join(rt, r, n, 'return')
+        return rt if rt is not None else I
+
+    def by_name(self, r):
+        """a captured variable inside an inlined lambda: the enclosing function's variable of that name"""
+        if not getattr(self, '_inl', 0):
+            return None
+        nm_ = short(r['n'])
+        for prm in self.fn.params:
+            if prm['name'] == nm_ and ('P', prm['id']) in self.env:
+                return self.env[('P', prm['id'])]
+        hits = [x for x in self.fn.all_nodes() if x['k'] == 'VarDecl' and x.get('name') == nm_ and ('L', x['id']) in self.env]
+        if len(hits) == 1:
+            return self.env[('L', hits[0]['id'])]
+        return None
 
     def apply_outs(self, n, args, targs, outs):
         for i, t in outs.items():
